@@ -455,6 +455,10 @@ def _columnwise_prefix(cx, rule, f, chunk, cp, assign):
             return {norm(t.left), norm(t.comparators[0])} == {f"len(set({var}))", "1"}
         return False
     it = g.iter
+    if isinstance(it, ast.Name):
+        r_it = reaching_def(it.id, st, calls=True, containers=True)
+        if r_it is not None:
+            it = r_it[0]
     if is_columns(it):
         if len(g.ifs) == 1 and all_equal(g.ifs[0], col):
             cx.ob(rule, st, False, f"`{cp}` collects EVERY position at which all alternatives agree (`... for {col} in zip(*productions) if <all equal>`), not only the leading run: "
@@ -481,6 +485,12 @@ def common_prefix_rule(cx, rule):
       otherwise:   undecided."""
     f = cx.func(REL, "LLParser._factorize_common_prefix_prods", rule)
     chunk = params(f)[3]
+    # private helpers expanded in place (the prefix may be computed by one)
+    from sa.inline import inlined as _inl
+    f_exp, _used_cp = _inl(cx.repo.modules[REL], f, nested=True, exclude=("_factorize_prods_list",))
+    if _used_cp:
+        cx.note(f"{rule}: _factorize_common_prefix_prods analysed with {_used_cp} expanded in place")
+        f = f_exp
     grp = [v for _, v in assignments(f, "group_prod_rule") if v is not None]
     cx.need(len(grp) == 1 and isinstance(grp[0], ast.Call) and len(grp[0].args) >= 2, rule, f, "group production")
     m = [n.id for n in ast.walk(grp[0].args[1]) if isinstance(n, ast.Name) and n.id not in ("tuple", "list", "grp_symbol_suffix")]
